@@ -60,32 +60,49 @@ type c01Call struct {
 	// stateExpr is the Go expression of the state it changes (a field such as c.gg)
 	errVal    bool
 	stateExpr string
+	// results: a failing call with several non-error results (result must be "")
+	results []string
+}
+
+// a composite literal &T{f: e, …} that stands for an abstract constructor applied to some of its fields
+type c01Lit struct {
+	sym    string
+	fields []string // the fields handed to the constructor, in order
+	ignore []string // fields that may be present and are not looked at
+	kind   string
 }
 
 // a field of the record a method works on
 type c01Field struct{ rec, get, set, kind string }
 
 // a Go map that the translated code uses through its keys: range (in the model's canonical order), index, len
-type c01MapKind struct{ keys, get, elem string }
+type c01MapKind struct {
+	keys, get, elem string
+	has, set        string // "" = the map is only read
+	pairs           bool   // the representation is the list of (key, element) pairs: `for k, v := range m`
+}
 
 type c01Tr struct {
-	fn      string
-	env     []c01Var
-	sels    map[string]c01Var  // squashed selector expression -> (Gallina text, kind)
-	consts  map[string]c01Var  // identifier -> (Gallina text, kind): package constants
-	calls   map[string]c01Call // "recv.method" by squashed text, or "<kind>.method" by kind of the receiver variable
-	states  []string           // variables whose final value is part of the function result
-	results []string           // kinds of the declared non-error results
-	hasErr  bool               // the function's last result is an error
-	nerr    int                // error returns met so far
-	elemOf  map[string]string  // kind of a collection -> kind of its elements
-	zero    map[string]string  // kind -> Gallina text of the zero value
-	types   map[string]string  // kind -> Gallina type (for the annotation of loop states)
-	fields  map[string]c01Field   // squashed selector expression -> field of the record
-	maps    map[string]c01MapKind // kind -> how a map of that kind is read
-	retRecv string                // methods that return their receiver (or nothing): its name ("" otherwise)
-	unkOK   bool                  // an unrecognised boolean operand becomes (unk "<its text>"): recognised but different
-	njoin   int
+	fn        string
+	env       []c01Var
+	sels      map[string]c01Var     // squashed selector expression -> (Gallina text, kind)
+	consts    map[string]c01Var     // identifier -> (Gallina text, kind): package constants
+	calls     map[string]c01Call    // "recv.method" by squashed text, or "<kind>.method" by kind of the receiver variable
+	states    []string              // variables whose final value is part of the function result
+	results   []string              // kinds of the declared non-error results
+	hasErr    bool                  // the function's last result is an error
+	nerr      int                   // error returns met so far
+	elemOf    map[string]string     // kind of a collection -> kind of its elements
+	zero      map[string]string     // kind -> Gallina text of the zero value
+	types     map[string]string     // kind -> Gallina type (for the annotation of loop states)
+	fields    map[string]c01Field   // squashed selector expression -> field of the record
+	maps      map[string]c01MapKind // kind -> how a map of that kind is read
+	retRecv   string                // methods that return their receiver (or nothing): its name ("" otherwise)
+	unkOK     bool                  // an unrecognised boolean operand becomes (unk "<its text>"): recognised but different
+	makeKinds map[string]string     // squashed map type -> kind of make(<type>)
+	lits      map[string]c01Lit     // squashed type of a composite literal -> abstract constructor
+	valueMode bool                  // no value is a stream: statements that only close stream readers are skipped
+	njoin     int
 }
 
 // the Gallina type of the loop state made of the given variables (plus the break flag)
@@ -114,9 +131,9 @@ func (t *c01Tr) stateType(vs []string, brk bool, extra ...string) string {
 
 func c01NewTr(fn string) *c01Tr {
 	return &c01Tr{fn: fn, sels: map[string]c01Var{}, consts: map[string]c01Var{}, calls: map[string]c01Call{},
-		fields: map[string]c01Field{}, maps: map[string]c01MapKind{},
+		fields: map[string]c01Field{}, maps: map[string]c01MapKind{}, makeKinds: map[string]string{}, lits: map[string]c01Lit{},
 		elemOf: map[string]string{"keys": "key", "kset": "key", "vals": "val", "nats": "nat"},
-		zero: map[string]string{"keys": "(@nil key)", "kset": "s_empty", "bool": "false", "nat": "0%nat", "key": "k_empty", "kmap": "km_empty"},
+		zero:   map[string]string{"keys": "(@nil key)", "kset": "s_empty", "bool": "false", "nat": "0%nat", "key": "k_empty", "kmap": "km_empty"},
 		types: map[string]string{"nat": "nat", "bool": "bool", "key": "key", "keys": "list key", "kset": "list key",
 			"nats": "list nat", "val": "V", "vals": "list V", "unit": "unit", "oerr": "option N", "kmap": "list (key * key)"}}
 }
@@ -207,8 +224,107 @@ func (t *c01Tr) expr(e ast.Expr) (string, string, error) {
 			return "", "", t.errf("index expression %s", c01Squash(x))
 		}
 		return "(l_get " + t.zeroOf(ek) + " " + i + " " + l + ")", ek, nil
+	case *ast.CompositeLit:
+		// []T{a, b}
+		if at, ok := x.Type.(*ast.ArrayType); ok && at.Len == nil {
+			if k, ok := t.makeKinds[c01Squash(at)]; ok {
+				var es []string
+				for _, el := range x.Elts {
+					s, ek, err := t.expr(el)
+					if err != nil {
+						return "", "", err
+					}
+					if ek != t.elemOf[k] {
+						return "", "", t.errf("%s literal with an element of kind %s", c01Squash(at), ek)
+					}
+					es = append(es, s)
+				}
+				return "[" + strings.Join(es, "; ") + "]", k, nil
+			}
+		}
+	case *ast.SliceExpr:
+		// l[a:], l[:b], l[a:b]
+		if x.Slice3 {
+			break
+		}
+		l, lk, err := t.expr(x.X)
+		if err != nil {
+			return "", "", err
+		}
+		if _, ok := t.elemOf[lk]; !ok || lk == "kset" {
+			return "", "", t.errf("slice of a %s", lk)
+		}
+		if x.Low != nil {
+			a, ak, err := t.expr(x.Low)
+			if err != nil {
+				return "", "", err
+			}
+			if ak != "nat" {
+				return "", "", t.errf("slice bound of kind %s", ak)
+			}
+			if x.High == nil {
+				return "(l_from " + a + " " + l + ")", lk, nil
+			}
+			b, bk, err := t.expr(x.High)
+			if err != nil {
+				return "", "", err
+			}
+			if bk != "nat" {
+				return "", "", t.errf("slice bound of kind %s", bk)
+			}
+			return "(l_from " + a + " (l_upto " + b + " " + l + "))", lk, nil
+		}
+		if x.High == nil {
+			return l, lk, nil
+		}
+		b, bk, err := t.expr(x.High)
+		if err != nil {
+			return "", "", err
+		}
+		if bk != "nat" {
+			return "", "", t.errf("slice bound of kind %s", bk)
+		}
+		return "(l_upto " + b + " " + l + ")", lk, nil
 	case *ast.UnaryExpr:
 		if x.Op == token.AND {
+			if cl, ok := x.X.(*ast.CompositeLit); ok {
+				if lt, ok := t.lits[c01Squash(cl.Type)]; ok {
+					vals := map[string]string{}
+					for _, el := range cl.Elts {
+						kv, ok := el.(*ast.KeyValueExpr)
+						if !ok {
+							return "", "", t.errf("%s literal without field names", c01Squash(cl.Type))
+						}
+						f := c01Squash(kv.Key)
+						used, ign := false, false
+						for _, u := range lt.fields {
+							used = used || u == f
+						}
+						for _, u := range lt.ignore {
+							ign = ign || u == f
+						}
+						switch {
+						case used:
+							s, _, err := t.expr(kv.Value)
+							if err != nil {
+								return "", "", err
+							}
+							vals[f] = s
+						case !ign:
+							return "", "", t.errf("%s literal sets the field %s", c01Squash(cl.Type), f)
+						}
+					}
+					parts := []string{lt.sym}
+					for _, f := range lt.fields {
+						v, ok := vals[f]
+						if !ok {
+							return "", "", t.errf("%s literal does not set the field %s", c01Squash(cl.Type), f)
+						}
+						parts = append(parts, v)
+					}
+					return "(" + strings.Join(parts, " ") + ")", lt.kind, nil
+				}
+			}
 			return t.expr(x.X) // &v: the value
 		}
 		if x.Op == token.NOT {
@@ -222,6 +338,29 @@ func (t *c01Tr) expr(e ast.Expr) (string, string, error) {
 			return "(negb " + s + ")", "bool", nil
 		}
 	case *ast.CallExpr:
+		if id, ok := x.Fun.(*ast.Ident); ok && id.Name == "append" && len(x.Args) == 2 {
+			if _, shadowed := t.kindOf("append"); !shadowed {
+				b, bk, err := t.expr(x.Args[0])
+				if err != nil {
+					return "", "", err
+				}
+				a, ak, err := t.expr(x.Args[1])
+				if err != nil {
+					return "", "", err
+				}
+				ek, ok := t.elemOf[bk]
+				if !ok || bk == "kset" {
+					return "", "", t.errf("append to a %s", bk)
+				}
+				switch {
+				case x.Ellipsis.IsValid() && (ak == bk || (ak == "kset" && bk == "keys")):
+					return "(" + b + " ++ " + a + ")", bk, nil
+				case !x.Ellipsis.IsValid() && ak == ek:
+					return "(" + b + " ++ [" + a + "])", bk, nil
+				}
+				return "", "", t.errf("append of a %s to a %s", ak, bk)
+			}
+		}
 		if id, ok := x.Fun.(*ast.Ident); ok && id.Name == "len" && len(x.Args) == 1 {
 			s, k, err := t.expr(x.Args[0])
 			if err != nil {
@@ -353,6 +492,12 @@ func (t *c01Tr) expr(e ast.Expr) (string, string, error) {
 			switch x.Op {
 			case token.ADD:
 				return "(" + l + " + " + r + ")%nat", "nat", nil
+			case token.SUB:
+				// Go's int difference; on nat it is cut off at 0: a negative difference would make Go panic at the
+				// index / slice it is used in, or is only compared with 0 (`> 0` means the same on both sides)
+				return "(" + l + " - " + r + ")%nat", "nat", nil
+			case token.MUL:
+				return "(" + l + " * " + r + ")%nat", "nat", nil
 			case token.LSS:
 				return "(Nat.ltb " + l + " " + r + ")", "bool", nil
 			case token.LEQ:
@@ -744,6 +889,12 @@ func (t *c01Tr) ret(c *c01Ctx, r *ast.ReturnStmt) (string, error) {
 			vs = append(vs, "None")
 			continue
 		}
+		if c01IsNilIdent(r.Results[i]) {
+			if _, known := t.kindOf("nil"); !known {
+				vs = append(vs, t.zeroOf(k)) // nil: the zero value of a slice / map / interface result
+				continue
+			}
+		}
 		s, ek, err := t.expr(r.Results[i])
 		if err != nil {
 			return "", err
@@ -763,6 +914,20 @@ func (t *c01Tr) ret(c *c01Ctx, r *ast.ReturnStmt) (string, error) {
 		return "Ok " + c01Paren(s), nil
 	}
 	return s, nil
+}
+
+// every return in the statements hands back an error (its last result is not nil)
+func c01OnlyErrorReturns(l []ast.Stmt) bool {
+	good := true
+	c01Walk(l, func(n ast.Node) bool {
+		if r, ok := n.(*ast.ReturnStmt); ok {
+			if len(r.Results) == 0 || c01IsNilIdent(r.Results[len(r.Results)-1]) {
+				good = false
+			}
+		}
+		return good
+	})
+	return good
 }
 
 // `if err != nil { return …, <error> }`
@@ -791,7 +956,7 @@ func (t *c01Tr) okLookup(s ast.Stmt) (string, bool) {
 	if id, ok := as.Lhs[0].(*ast.Ident); !ok || id.Name != "_" {
 		return "", false
 	}
-	if id, ok := as.Lhs[1].(*ast.Ident); !ok || id.Name != "ok" {
+	if id, ok := as.Lhs[1].(*ast.Ident); !ok || id.Name == "_" {
 		return "", false
 	}
 	ix, ok := as.Rhs[0].(*ast.IndexExpr)
@@ -799,14 +964,26 @@ func (t *c01Tr) okLookup(s ast.Stmt) (string, bool) {
 		return "", false
 	}
 	m, mk, err := t.expr(ix.X)
-	if err != nil || mk != "kset" {
+	if err != nil {
 		return "", false
 	}
 	k, kk, err := t.expr(ix.Index)
 	if err != nil || kk != "key" {
 		return "", false
 	}
+	if mkd, ok := t.maps[mk]; ok && mkd.has != "" {
+		return "(" + mkd.has + " " + k + " " + m + ")", true
+	}
+	if mk != "kset" {
+		return "", false
+	}
 	return "(s_has " + k + " " + m + ")", true
+}
+
+// the init statement `_, <name> := …` of an if
+func c01InitDefinesOK(init ast.Stmt, name string) bool {
+	as, ok := init.(*ast.AssignStmt)
+	return ok && len(as.Lhs) == 2 && c01IsIdentNamed(as.Lhs[1], name)
 }
 
 func (t *c01Tr) ifCond(is *ast.IfStmt) (string, error) {
@@ -815,7 +992,7 @@ func (t *c01Tr) ifCond(is *ast.IfStmt) (string, error) {
 		if u, ok := c.(*ast.UnaryExpr); ok && u.Op == token.NOT {
 			neg, c = true, u.X
 		}
-		if id, ok := c.(*ast.Ident); !ok || id.Name != "ok" {
+		if id, ok := c.(*ast.Ident); !ok || !c01InitDefinesOK(is.Init, id.Name) {
 			return "", t.errf("if with an init statement whose condition is not ok / !ok")
 		}
 		s, ok := t.okLookup(is.Init)
@@ -861,6 +1038,29 @@ func (t *c01Tr) assignTo(lhs ast.Expr, define bool, val, kind string) (string, e
 		}
 		return "let " + x.Name + " := " + val + " in", nil
 	case *ast.IndexExpr:
+		// m[a][b] = v on a map of maps
+		if inner, ok := x.X.(*ast.IndexExpr); ok {
+			if id, ok := inner.X.(*ast.Ident); ok {
+				if ok1, _ := t.kindOf(id.Name); ok1 != "" {
+					outer, isMap := t.maps[ok1]
+					in2, isMap2 := t.maps[outer.elem]
+					if isMap && isMap2 && outer.set != "" && in2.set != "" && kind == in2.elem {
+						a, ak, err := t.expr(inner.Index)
+						if err != nil {
+							return "", err
+						}
+						b, bk, err := t.expr(x.Index)
+						if err != nil {
+							return "", err
+						}
+						if ak != "key" || bk != "key" {
+							return "", t.errf("assignment to an element of the map %s", id.Name)
+						}
+						return "let " + id.Name + " := " + outer.set + " " + a + " (" + in2.set + " " + b + " " + c01Paren(val) + " (" + outer.get + " " + id.Name + " " + a + ")) " + id.Name + " in", nil
+					}
+				}
+			}
+		}
 		id, ok := x.X.(*ast.Ident)
 		if !ok {
 			break
@@ -868,6 +1068,16 @@ func (t *c01Tr) assignTo(lhs ast.Expr, define bool, val, kind string) (string, e
 		lk, ok := t.kindOf(id.Name)
 		if !ok {
 			break
+		}
+		if mkd, isMap := t.maps[lk]; isMap && mkd.set != "" && kind == mkd.elem {
+			k, kk, err := t.expr(x.Index)
+			if err != nil {
+				return "", err
+			}
+			if kk != "key" {
+				return "", t.errf("assignment to an element of the map %s", id.Name)
+			}
+			return "let " + id.Name + " := " + mkd.set + " " + k + " " + c01Paren(val) + " " + id.Name + " in", nil
 		}
 		if lk == "kmap" && kind == "key" {
 			k, kk, err := t.expr(x.Index)
@@ -1083,6 +1293,35 @@ func (t *c01Tr) assign(l []ast.Stmt, x *ast.AssignStmt, c *c01Ctx, ind string) (
 				if cl.result != "" {
 					want = 2
 				}
+				if len(cl.results) > 0 {
+					// v1, …, vn, err := f(…)
+					if len(x.Lhs) != len(cl.results)+1 {
+						return "", t.errf("call %s assigned to %d variables", cl.sym, len(x.Lhs))
+					}
+					var binds, pres []string
+					for i, rk := range cl.results {
+						id, ok := x.Lhs[i].(*ast.Ident)
+						if !ok {
+							return "", t.errf("result %d of %s is not assigned to a variable", i, cl.sym)
+						}
+						if id.Name == "_" {
+							binds = append(binds, "_")
+							continue
+						}
+						bind := "v_" + strconv.Itoa(len(t.env)) + "_" + strconv.Itoa(i)
+						_, known := t.kindOf(id.Name)
+						pre, err := t.assignTo(id, define && !known, bind, rk)
+						if err != nil {
+							return "", err
+						}
+						binds = append(binds, bind)
+						pres = append(pres, pre)
+					}
+					if cl.state != "" {
+						binds = append(binds, cl.state)
+					}
+					return join("do ("+strings.Join(binds, ", ")+") <- "+s+";\n"+ind+strings.Join(pres, "\n"+ind), 2)
+				}
 				if len(x.Lhs) != want {
 					return "", t.errf("call %s assigned to %d variables", cl.sym, len(x.Lhs))
 				}
@@ -1112,6 +1351,29 @@ func (t *c01Tr) assign(l []ast.Stmt, x *ast.AssignStmt, c *c01Ctx, ind string) (
 					return join("do ("+bind+", "+cl.state+") <- "+s+";\n"+ind+pre, 2)
 				}
 				return join("do "+bind+" <- "+s+";\n"+ind+pre, 2)
+			}
+		}
+	}
+	// x, ok := m[k]; if !ok { … }: x := m[k], then the test on presence
+	if define && len(x.Lhs) == 2 && len(x.Rhs) == 1 && len(l) >= 2 {
+		if ix, isIx := x.Rhs[0].(*ast.IndexExpr); isIx {
+			vid, ok1 := x.Lhs[0].(*ast.Ident)
+			okid, ok2 := x.Lhs[1].(*ast.Ident)
+			if is, isIf := l[1].(*ast.IfStmt); isIf && ok1 && ok2 && is.Init == nil && okid.Name != "_" {
+				usesOK := c01IsIdentNamed(is.Cond, okid.Name)
+				if u, isU := is.Cond.(*ast.UnaryExpr); isU && u.Op == token.NOT && c01IsIdentNamed(u.X, okid.Name) {
+					usesOK = true
+				}
+				if usesOK && !c01ReadBeforeWrite(l[2:], okid.Name) && !c01Mentions(is.Body.List, okid.Name) {
+					first := &ast.AssignStmt{Lhs: []ast.Expr{vid}, Tok: token.DEFINE, Rhs: []ast.Expr{ix}}
+					test := &ast.IfStmt{Init: &ast.AssignStmt{Lhs: []ast.Expr{ast.NewIdent("_"), okid}, Tok: token.DEFINE, Rhs: []ast.Expr{ix}},
+						Cond: is.Cond, Body: is.Body, Else: is.Else}
+					nl := append([]ast.Stmt{first, test}, l[2:]...)
+					if vid.Name == "_" {
+						nl = nl[1:]
+					}
+					return t.block(nl, c, ind)
+				}
 			}
 		}
 	}
@@ -1156,12 +1418,31 @@ func (t *c01Tr) assign(l []ast.Stmt, x *ast.AssignStmt, c *c01Ctx, ind string) (
 				if c01Squash(ty.Elt) == "string" && (len(call.Args) == 1 || c01Squash(call.Args[1]) == "0") {
 					kind = "keys"
 				}
+				if k, ok := t.makeKinds[c01Squash(ty)]; ok && len(call.Args) == 2 {
+					// make([]T, n): n zero values
+					n, nk, err := t.expr(call.Args[1])
+					if err != nil {
+						return "", err
+					}
+					if nk != "nat" {
+						return "", t.errf("make(%s, <%s>)", c01Squash(ty), nk)
+					}
+					ek := t.elemOf[k]
+					pre, err := t.assignTo(lhs, define, "(repeat "+t.zeroOf(ek)+" "+n+")", k)
+					if err != nil {
+						return "", err
+					}
+					return join(pre, 1)
+				}
 			case *ast.MapType:
 				if c01Squash(ty.Key) == "string" && (c01Squash(ty.Value) == "struct{}" || c01Squash(ty.Value) == "bool") {
 					kind = "kset"
 				}
 				if c01Squash(ty.Key) == "string" && c01Squash(ty.Value) == "string" {
 					kind = "kmap"
+				}
+				if k, ok := t.makeKinds[c01Squash(ty)]; ok {
+					kind = k
 				}
 			}
 			if kind == "" {
@@ -1242,6 +1523,73 @@ func (t *c01Tr) ifStmt(l []ast.Stmt, x *ast.IfStmt, c *c01Ctx, ind string) (stri
 			}
 		}
 	}
+	// value mode: `if s, ok := x.(streamReader); ok { … }` — no value is a stream, the arm is never taken
+	if t.valueMode && x.Else == nil {
+		if as, ok := x.Init.(*ast.AssignStmt); ok && as.Tok == token.DEFINE && len(as.Lhs) == 2 && len(as.Rhs) == 1 {
+			if ta, ok := as.Rhs[0].(*ast.TypeAssertExpr); ok && ta.Type != nil && c01Squash(ta.Type) == "streamReader" {
+				if okv, ok := as.Lhs[1].(*ast.Ident); ok && c01IsIdentNamed(x.Cond, okv.Name) {
+					if _, _, err := t.expr(ta.X); err != nil {
+						return "", err
+					}
+					return t.block(l[1:], c, ind)
+				}
+			}
+		}
+	}
+	// if v, ok := m[k]; ok / !ok { … }: v := m[k] (the zero value when k is absent, as in Go), then the test on presence
+	if as, ok := x.Init.(*ast.AssignStmt); ok && as.Tok == token.DEFINE && len(as.Lhs) == 2 && len(as.Rhs) == 1 {
+		if ix, ok := as.Rhs[0].(*ast.IndexExpr); ok {
+			vid, ok1 := as.Lhs[0].(*ast.Ident)
+			okid, ok2 := as.Lhs[1].(*ast.Ident)
+			if ok1 && ok2 && vid.Name != "_" && okid.Name != "_" {
+				if _, known := t.kindOf(vid.Name); !known && !c01Mentions(l[1:], vid.Name) {
+					val, kind, err := t.expr(ix)
+					if err != nil {
+						return "", err
+					}
+					saved := len(t.env)
+					if err := t.declare(vid.Name, kind); err != nil {
+						return "", err
+					}
+					test := &ast.IfStmt{Init: &ast.AssignStmt{Lhs: []ast.Expr{ast.NewIdent("_"), okid}, Tok: token.DEFINE, Rhs: []ast.Expr{ix}},
+						Cond: x.Cond, Body: x.Body, Else: x.Else}
+					r, err := t.ifStmt(append([]ast.Stmt{test}, l[1:]...), test, c, ind)
+					t.env = t.env[:saved]
+					if err != nil {
+						return "", err
+					}
+					return "let " + vid.Name + " := " + val + " in\n" + ind + r, nil
+				}
+			}
+		}
+	}
+	// if v := e; cond { … }: v is a variable of the if statement only
+	if as, ok := x.Init.(*ast.AssignStmt); ok && as.Tok == token.DEFINE && len(as.Lhs) == 1 && len(as.Rhs) == 1 {
+		if id, ok := as.Lhs[0].(*ast.Ident); ok && id.Name != "_" {
+			if _, isCall := as.Rhs[0].(*ast.CallExpr); !isCall {
+				if _, known := t.kindOf(id.Name); !known {
+					val, kind, err := t.expr(as.Rhs[0])
+					if err != nil {
+						return "", err
+					}
+					if c01Mentions(l[1:], id.Name) {
+						return "", t.errf("the variable %s of an if statement is also a variable of the statements that follow", id.Name)
+					}
+					saved := len(t.env)
+					if err := t.declare(id.Name, kind); err != nil {
+						return "", err
+					}
+					plain := &ast.IfStmt{Cond: x.Cond, Body: x.Body, Else: x.Else}
+					r, err := t.ifStmt(append([]ast.Stmt{plain}, l[1:]...), plain, c, ind)
+					t.env = t.env[:saved]
+					if err != nil {
+						return "", err
+					}
+					return "let " + id.Name + " := " + val + " in\n" + ind + r, nil
+				}
+			}
+		}
+	}
 	cond, err := t.ifCond(x)
 	if err != nil {
 		return "", err
@@ -1304,7 +1652,7 @@ func (t *c01Tr) ifStmt(l []ast.Stmt, x *ast.IfStmt, c *c01Ctx, ind string) (stri
 		return "if " + cond + " then " + c01Paren(th) + "\n" + ind + "else " + c01Paren(el), nil
 	}
 	// an arm leaves the block on some paths only: each arm is continued by the statements that follow
-	if t.hasErr && (c01HasReturn(then) || c01HasReturn(els)) {
+	if t.hasErr && (c01HasReturn(then) || c01HasReturn(els)) && c01OnlyErrorReturns(then) && c01OnlyErrorReturns(els) {
 		// arms with error returns and assignments (x, err = f(); if err != nil { return }): the arms are blocks
 		// in the error monad that hand on what they assign
 		if !c01HasJump(then, token.BREAK) && !c01HasJump(then, token.CONTINUE) && !c01HasJump(els, token.BREAK) && !c01HasJump(els, token.CONTINUE) {
@@ -1388,7 +1736,48 @@ func (t *c01Tr) errValCall(cl c01Call, recv ast.Expr, call *ast.CallExpr, lhs as
 	return "let '(g_, " + id.Name + ") := " + s + " in\n    let " + f.rec + " := " + f.set + " " + f.rec + " g_ in", nil
 }
 
+// `for _, v := range L { if sr, ok := v.(streamReader); ok { sr.close() } }`: the loop assigns nothing and calls
+// nothing but close on the stream readers among the values; where no value is a stream it has no effect
+func c01OnlyClosesStreams(x *ast.RangeStmt) bool {
+	if len(x.Body.List) != 1 {
+		return false
+	}
+	is, ok := x.Body.List[0].(*ast.IfStmt)
+	if !ok || is.Else != nil || len(is.Body.List) != 1 {
+		return false
+	}
+	as, ok := is.Init.(*ast.AssignStmt)
+	if !ok || as.Tok != token.DEFINE || len(as.Lhs) != 2 || len(as.Rhs) != 1 {
+		return false
+	}
+	ta, ok := as.Rhs[0].(*ast.TypeAssertExpr)
+	if !ok || ta.Type == nil || c01Squash(ta.Type) != "streamReader" {
+		return false
+	}
+	sr, ok1 := as.Lhs[0].(*ast.Ident)
+	okv, ok2 := as.Lhs[1].(*ast.Ident)
+	if !ok1 || !ok2 || !c01IsIdentNamed(is.Cond, okv.Name) {
+		return false
+	}
+	es, ok := is.Body.List[0].(*ast.ExprStmt)
+	if !ok {
+		return false
+	}
+	call, ok := es.X.(*ast.CallExpr)
+	if !ok || len(call.Args) != 0 {
+		return false
+	}
+	sel, ok := call.Fun.(*ast.SelectorExpr)
+	return ok && sel.Sel.Name == "close" && c01IsIdentNamed(sel.X, sr.Name)
+}
+
 func (t *c01Tr) rangeStmt(l []ast.Stmt, x *ast.RangeStmt, c *c01Ctx, ind string) (string, error) {
+	if t.valueMode && c01OnlyClosesStreams(x) {
+		if _, _, err := t.expr(x.X); err != nil {
+			return "", err
+		}
+		return t.block(l[1:], c, ind)
+	}
 	if x.Tok != token.DEFINE && x.Key != nil {
 		return "", t.errf("range loop that assigns to existing variables")
 	}
@@ -1421,9 +1810,21 @@ func (t *c01Tr) rangeStmt(l []ast.Stmt, x *ast.RangeStmt, c *c01Ctx, ind string)
 	defer func() { t.env = t.env[:saved] }()
 	var binder, over string
 	switch {
+	case isMap && mk.pairs && vv != "_":
+		// for k, v := range m (Go's order is arbitrary; the model's list order stands for it)
+		binder, over = "ix_", coll
+		if err := t.declare(kv, "key"); err != nil {
+			return "", err
+		}
+		if err := t.declare(vv, mk.elem); err != nil {
+			return "", err
+		}
 	case isMap:
 		if vv != "_" {
 			return "", t.errf("range over a map with a value variable")
+		}
+		if mk.keys == "" {
+			return "", t.errf("range over the keys of a %s", ck)
 		}
 		binder, over = kv, "("+mk.keys+" "+coll+")"
 		if err := t.declare(kv, "key"); err != nil {
